@@ -346,7 +346,10 @@ Judge(s, e) ==
        ELSE LET K == CopyK(t, a)
                 all == a.all /\ ~a.excl IN
             IF ~Legal(e.post) THEN "post.illformed"
-            ELSE IF \E c \in 1..NC : Tot(u[a.x])[c] # (IF c \in K THEN Tot(t[a.y])[c] ELSE IF all THEN 0 ELSE Tot(t[a.x])[c]) THEN "conservation.copied_flow"
+            \* copied chemicals: the source's amount arrives; what the receiver held of them in phases the copy does not write may stay
+            \* (the library keeps it in some branches) but nothing beyond that appears; the other chemicals stay as they were
+            ELSE IF \E c \in 1..NC : IF c \in K THEN Tot(u[a.x])[c] < Tot(t[a.y])[c] \/ Tot(u[a.x])[c] > Tot(t[a.y])[c] + Tot(t[a.x])[c]
+                                       ELSE Tot(u[a.x])[c] # (IF all THEN 0 ELSE Tot(t[a.x])[c]) THEN "conservation.copied_flow"
             ELSE IF \E c \in 1..NC : Tot(u[a.y])[c] # (IF a.remove /\ c \in K THEN 0 ELSE Tot(t[a.y])[c]) THEN "conservation.source"
             ELSE IF ~FrameOK(s, e, {a.x, a.y}) THEN "frame"
             ELSE "ok"
